@@ -104,6 +104,15 @@ pub fn braid_pd(strands: usize, word: &[i32]) -> Pd {
     pd_of(&Braid::new(strands, word.iter().map(|&g| g.into()).collect()).closure())
 }
 
+/// `braid_pd`, empty if `Braid::closure` panics (configurations are built outside any run)
+pub fn try_braid_pd(strands: usize, word: &[i32]) -> Pd {
+    let w = word.to_vec();
+    std::panic::catch_unwind(move || braid_pd(strands, &w)).unwrap_or_else(|_| {
+        eprintln!("Braid::closure panicked on {:?} ({} strands): pair skipped", word, strands);
+        vec![]
+    })
+}
+
 fn trefoil() -> Pd {
     vec![[1, 4, 2, 5], [3, 6, 4, 1], [5, 2, 6, 3]]
 }
@@ -138,11 +147,11 @@ pub fn move_pairs(thorough: bool, seed: u64) -> Vec<(String, Pd, Pd, bool)> {
     v.push(("kink~kink".into(), vec![[1, 2, 2, 1]], vec![[1, 1, 2, 2]], true));
     v.push(("kink~2kinks".into(), vec![[1, 1, 2, 2]], r1(&vec![[1, 1, 2, 2]], 1, s % 4), true));
     // braid relations and Markov moves before closure
-    v.push(("braid s1^3 ~ stabilised+".into(), braid_pd(2, &[1, 1, 1]), braid_pd(3, &[1, 1, 1, 2]), true));
-    v.push(("braid s1^3 ~ stabilised-".into(), braid_pd(2, &[1, 1, 1]), braid_pd(3, &[1, 1, 1, -2]), true));
-    v.push(("braid s1s2s1 ~ s2s1s2 (x s1)".into(), braid_pd(3, &[1, 2, 1, 1]), braid_pd(3, &[2, 1, 2, 1]), true));
-    v.push(("braid conjugation".into(), braid_pd(3, &[1, -2, 1, -2]), braid_pd(3, &[-2, 1, -2, 1]), true));
-    v.push(("braid far commutation".into(), braid_pd(4, &[1, 3, 2]), braid_pd(4, &[3, 1, 2]), true));
+    v.push(("braid s1^3 ~ stabilised+".into(), try_braid_pd(2, &[1, 1, 1]), try_braid_pd(3, &[1, 1, 1, 2]), true));
+    v.push(("braid s1^3 ~ stabilised-".into(), try_braid_pd(2, &[1, 1, 1]), try_braid_pd(3, &[1, 1, 1, -2]), true));
+    v.push(("braid s1s2s1 ~ s2s1s2 (x s1)".into(), try_braid_pd(3, &[1, 2, 1, 1]), try_braid_pd(3, &[2, 1, 2, 1]), true));
+    v.push(("braid conjugation".into(), try_braid_pd(3, &[1, -2, 1, -2]), try_braid_pd(3, &[-2, 1, -2, 1]), true));
+    v.push(("braid far commutation".into(), try_braid_pd(4, &[1, 3, 2]), try_braid_pd(4, &[3, 1, 2]), true));
     if thorough {
         let f = figure8();
         for variant in 0..4 {
@@ -151,11 +160,13 @@ pub fn move_pairs(thorough: bool, seed: u64) -> Vec<(String, Pd, Pd, bool)> {
         v.push(("figure8~reversed".into(), f.clone(), reverse_orientation(&f), true));
         v.push(("figure8~renumbered+reordered".into(), f.clone(), reorder(&renumber(&f, s), 2), true));
         v.push(("trefoil~R1,R1".into(), t.clone(), r1(&r1(&t, 2, s), 5, s + 1), true));
-        v.push(("braid R2 insertion".into(), braid_pd(2, &[1, 1, 1]), braid_pd(2, &[1, 1, 1, 1, -1]), true));
-        v.push(("braid s1^-3 ~ PD trefoil".into(), braid_pd(2, &[-1, -1, -1]), t.clone(), true));
-        v.push(("braid figure8 ~ PD figure8".into(), braid_pd(3, &[1, -2, 1, -2]), f.clone(), true));
-        v.push(("braid relation inside".into(), braid_pd(3, &[1, 2, 1, 2, 2]), braid_pd(3, &[2, 1, 2, 2, 2]), true));
+        v.push(("braid R2 insertion".into(), try_braid_pd(2, &[1, 1, 1]), try_braid_pd(2, &[1, 1, 1, 1, -1]), true));
+        v.push(("braid s1^-3 ~ PD trefoil".into(), try_braid_pd(2, &[-1, -1, -1]), t.clone(), true));
+        v.push(("braid figure8 ~ PD figure8".into(), try_braid_pd(3, &[1, -2, 1, -2]), f.clone(), true));
+        v.push(("braid relation inside".into(), try_braid_pd(3, &[1, 2, 1, 2, 2]), try_braid_pd(3, &[2, 1, 2, 2, 2]), true));
     }
+    // a pair whose braid closure could not be built (see `try_braid_pd`) is dropped here: C18 judges `Braid::closure`
+    v.retain(|e| !e.1.is_empty() && !e.2.is_empty());
     // the knot flag is recomputed from the diagram (strand relation), never trusted from the table above
     for e in v.iter_mut() {
         e.3 = pd_components(&e.1) == 1 && pd_components(&e.2) == 1;
@@ -646,7 +657,12 @@ impl Harness for LinkFacts {
     where
         for<'x> &'x I: VIntOps<I>,
     {
-        let pd = &self.pd;
+        // a braid's diagram is built here, inside the run, so that a panic of `Braid::closure` is judged like any other failure
+        let built: Pd = match &self.braid {
+            Some((s, w)) => braid_pd(*s, w),
+            None => self.pd.clone(),
+        };
+        let pd = &built;
         let n = pd.len();
         let l = Link::from_pd_code(pd.clone());
         // ---- components: orbits of the strand-through-crossing relation, partition of the edge set
@@ -765,7 +781,7 @@ pub fn configs_c18(tier: crate::registry::Tier, seed: u64) -> Vec<crate::registr
     use crate::registry::{entry, Tier};
     let th = tier == Tier::Thorough;
     let mut v = Vec::new();
-    for (name, pd) in khref::catalogue().into_iter().chain(khref::over_only_catalogue()).chain(khref::big_catalogue()).chain(if th { khref::cycle_catalogue() } else { vec![] }) {
+    for (name, pd) in khref::catalogue().into_iter().chain(khref::over_only_catalogue()).chain(khref::multi_over_only_catalogue()).chain(khref::big_catalogue()).chain(if th { khref::cycle_catalogue() } else { vec![] }) {
         v.push(entry(LinkFacts { name: name.to_string(), pd: pd.clone(), braid: None }, 3, 60.0));
         v.push(entry(LinkFacts { name: format!("{}~renumbered", name), pd: renumber(&pd, seed as usize), braid: None }, 3, 60.0));
     }
@@ -775,9 +791,96 @@ pub fn configs_c18(tier: crate::registry::Tier, seed: u64) -> Vec<crate::registr
         (5, vec![1, 2, 3, 4, 4]), (8, vec![1, 2, 3, 4, 5, 6, 7, 7, 7]),
     ];
     for (s, w) in words {
-        v.push(entry(LinkFacts { name: format!("braid{}{:?}", s, w), pd: braid_pd(s, &w), braid: Some((s, w.clone())) }, 3, 60.0));
+        v.push(entry(LinkFacts { name: format!("braid{}{:?}", s, w), pd: vec![], braid: Some((s, w.clone())) }, 3, 60.0));
     }
+    // conjugated words (first letter inverse to the last), also nested
+    for (s, w) in [(3usize, vec![1, 2, -1]), (3, vec![1, 2, 2, 2, -1]), (3, vec![-2, 1, 1, 2, -1, 2]), (4, vec![3, 1, 2, 2, -1, -3])] {
+        v.push(entry(LinkFacts { name: format!("braid{}{:?}", s, w), pd: vec![], braid: Some((s, w.clone())) }, 3, 60.0));
+    }
+    v.push(entry(BraidFacts { strands: 2, maxlen: if th { 12 } else { 10 } }, 3, 60.0));
+    v.push(entry(BraidFacts { strands: 3, maxlen: if th { 8 } else { 7 } }, 3, 120.0));
+    v.push(entry(BraidFacts { strands: 4, maxlen: if th { 6 } else { 5 } }, 3, 120.0));
+    v.push(entry(BraidFacts { strands: 5, maxlen: if th { 6 } else { 5 } }, 3, 120.0));
     v
+}
+
+/// Every braid word up to a length on a few strands (all of them, not a sample): the closure has one crossing per
+/// letter, its components are the cycles of the permutation, the crossing signs are the letter signs. Concrete
+/// obligations (no scalar to symbolise), auxiliary like `LinkFacts`.
+pub struct BraidFacts {
+    pub strands: usize,
+    pub maxlen: usize,
+}
+
+impl Harness for BraidFacts {
+    fn id(&self) -> String {
+        format!("linkfacts/all braid words/s{}/len<={}", self.strands, self.maxlen)
+    }
+    fn functions(&self) -> Vec<&'static str> {
+        vec!["Braid::{new,closure}", "Link::{components,signed_crossing_nums,writhe,crossing_num}"]
+    }
+    fn inputs(&self) -> Vec<InputSpec> {
+        vec![InputSpec::range("unit", 1, 1)]
+    }
+    fn body<I: VInt>(&self, _xs: &[I])
+    where
+        for<'x> &'x I: VIntOps<I>,
+    {
+        let s = self.strands;
+        let gens: Vec<i32> = (1..s as i32).flat_map(|g| [g, -g]).collect();
+        for len in (s - 1)..=self.maxlen {
+            let mut idx = vec![0usize; len];
+            loop {
+                let word: Vec<i32> = idx.iter().map(|&i| gens[i]).collect();
+                // every strand must be touched (closure documents a panic on free loops)
+                if (1..s as i32).all(|g| word.iter().any(|w| w.abs() == g)) {
+                    let pd = braid_pd(s, &word);
+                    let l = Link::from_pd_code(pd.clone());
+                    let mut perm: Vec<usize> = (0..s).collect();
+                    for g in &word {
+                        let i = g.unsigned_abs() as usize - 1;
+                        perm.swap(i, i + 1);
+                    }
+                    let mut seen = vec![false; s];
+                    let mut cycles = 0;
+                    for a in 0..s {
+                        if !seen[a] {
+                            cycles += 1;
+                            let mut t = a;
+                            while !seen[t] {
+                                seen[t] = true;
+                                t = perm[t];
+                            }
+                        }
+                    }
+                    let pos = word.iter().filter(|g| **g > 0).count();
+                    let ok = pd.len() == word.len()
+                        && l.crossing_num() == word.len()
+                        && pd_components(&pd) == cycles
+                        && l.components().len() == cycles
+                        && l.signed_crossing_nums() == (pos, word.len() - pos)
+                        && l.writhe() == word.iter().map(|g| g.signum()).sum::<i32>();
+                    if !ok {
+                        I::oblige(&format!("closure of {:?} on {} strands: crossings = letters, components = permutation cycles, signs = letter signs", word, s), VF::False);
+                    }
+                }
+                // next word
+                let mut k = 0;
+                while k < len {
+                    idx[k] += 1;
+                    if idx[k] < gens.len() {
+                        break;
+                    }
+                    idx[k] = 0;
+                    k += 1;
+                }
+                if k == len {
+                    break;
+                }
+            }
+        }
+        I::oblige("all braid words enumerated", VF::True);
+    }
 }
 
 /// kernel obligation of C06: the divisibility of a coordinate vector by c is the minimum c-adic valuation of its non-zero entries
